@@ -102,8 +102,9 @@ def _gen_scope(w, st, depth, frozen, data):
     aid = st["allocs"]
     st["allocs"] += 1
     free = [x for x in data if x not in frozen]
-    kind = w.choice(["zero_scratch", "zero_scratch", "zero_restored", "zero_restored", "any_dirty"])
-    if kind == "any_dirty" and len(free) < 2:
+    kind = st.pop("force_kind", None) or w.choice(["zero_scratch", "zero_scratch", "zero_restored", "zero_restored",
+                                                  "any_dirty", "any_scratch"])
+    if kind in ("any_dirty", "any_scratch") and len(free) < 2:
         kind = "zero_scratch"
     if kind == "zero_restored" and len(free) < 2:
         kind = "zero_scratch"
@@ -146,12 +147,25 @@ def _gen_scope(w, st, depth, frozen, data):
             stmts.append(["g", g])  # CNOT, Toffoli and Hadamard are self-inverse
         stmts.append(["dealloc", aid])
     else:  # dirty ancilla: the toggling pattern is independent of the ancilla's state and restores it
-        stmts.append(["alloc", aid, 1, "any", True])
+        scratch = kind == "any_scratch"
+        stmts.append(["alloc", aid, 1, "any", not scratch])
         a = ["d", aid, 0]
         c, t = w.sample(free, 2)
         for g in (["CNOT", [c, a], []], ["CNOT", [a, t], []], ["CNOT", [c, a], []], ["CNOT", [a, t], []]):
             stmts.append(["g", g])
+        if scratch:
+            # any-state wire that is NOT promised back: left dirty by gates that touch nothing else
+            for _ in range(w.randint(1, 2)):
+                stmts.append(["g", w.choice([["PauliX", [a], []], ["Hadamard", [a], []], ["RY", [a], [1.1]]])])
         stmts.append(["dealloc", aid])
+    if depth == 0 and kind == "zero_restored" and w.random() < 0.35 and st["allocs"] <= 4:
+        # a restored scope directly followed (no operation in between) by an any-state scratch scope that is
+        # left dirty, then a zero request
+        st["force_kind"] = "any_scratch"
+        _gen_scope(w, st, depth, frozen, data)
+        st["force_kind"] = w.choice(["zero_scratch", "zero_restored"])
+        _gen_scope(w, st, depth, frozen, data)
+        st.pop("force_kind", None)
 
 
 def gen_case(streams, tier):
@@ -203,7 +217,7 @@ def gen_case(streams, tier):
     any_state = [20 + i for i in range(na)]
     min_int = None if (exhaust or f.random() < 0.4) else 30
     return {"static": s, "stmts": st["stmts"], "zeroed": zeroed, "any_state": any_state,
-            "min_int": min_int, "allow_resets": f.random() < 0.7,
+            "min_int": min_int, "allow_resets": f.random() < 0.7, "idle_measured": w.random() < 0.4,
             "dirty_angles": [qgen.rand_angle(w) for _ in any_state]}
 
 
@@ -424,20 +438,31 @@ def run_case(case):
                           "assignment": assignment})
     # ---- the device's own resolution + execution ----------------------------------------------------
     if not violations:
-        for dev_wires in (None, list(range(s)) + list(case["any_state"]) + [40, 41, 42, 43]):
+        expected_dev = np.real(np.diag(ref_rho))
+        dev_tape = tape
+        idle = []
+        if case.get("idle_measured"):
+            # a static wire that no gate touches and that is only measured still belongs to the static
+            # circuit: it must read |0>, whatever the allocator did
+            idle = [s]
+            dev_tape = tape.copy(measurements=[qp.probs(wires=list(range(s + 1)))])
+            expected_dev = np.kron(expected_dev, np.array([1.0, 0.0]))
+            counters["device_runs_with_idle_measured_wire"] = 1
+        for dev_wires in (None, list(range(s)) + idle + list(case["any_state"]) + [40, 41, 42, 43]):
             try:
                 dev = qp.device("default.qubit", wires=dev_wires)
-                got = qp.execute([tape], dev, diff_method=None, cache=False)[0]
+                got = qp.execute([dev_tape], dev, diff_method=None, cache=False)[0]
             except AllocationError:
                 counters["fault:register_exhaustion"] = 1
                 continue
             except Exception as e:  # noqa: BLE001
                 viol("unexpected_exception", {"exc": type(e).__name__, "where": "device"}, {"error": repr(e)[:300]})
                 break
-            if not np.allclose(np.asarray(got, dtype=float), np.real(np.diag(ref_rho)), atol=1e-8):
-                viol("device_execution_differs_from_fresh_wires", {"device_wires": dev_wires is not None},
+            if not np.allclose(np.asarray(got, dtype=float), expected_dev, atol=1e-8):
+                viol("device_execution_differs_from_fresh_wires",
+                     {"device_wires": dev_wires is not None, "idle_measured_wire": bool(idle)},
                      {"observed": np.round(np.asarray(got, dtype=float), 6).tolist(),
-                      "expected": np.round(np.real(np.diag(ref_rho)), 6).tolist()})
+                      "expected": np.round(expected_dev, 6).tolist()})
                 break
     h = hashlib.sha256(json.dumps([case["stmts"], case["zeroed"], case["any_state"], case["min_int"],
                                    case["allow_resets"], assignment], sort_keys=True, default=str).encode())
